@@ -170,6 +170,9 @@ def weight_value(weight, w, x):
 
 
 def weighted_dparam(family, p, a, b, c, weight, w):
+    if w == 0:
+        # cos(0 x) = 1: the unweighted integral; sin(0 x) = 0
+        return INTEGRANDS[family][2](p, a, b, c) if weight == 'cos' else [0.0] * len(p)
     if family == 'poly':
         return [_part(_xk_eiw(k, w, b) - _xk_eiw(k, w, a), weight) for k in range(len(p))]
     if family == 'exp':
